@@ -133,6 +133,7 @@ func main() {
 	closedForms(r)
 	cameras(r)
 	objects(r)
+	objects2(r)
 
 	r.Require("estimator.renders", 30)
 	r.Require("estimator.pixels_checked", 2000)
@@ -145,11 +146,14 @@ func main() {
 	r.Require("camera.roundtrips", 1000)
 	r.Require("camera.directional", 50)
 	r.Require("objects.casts", 2000)
+	r.Require("objects.chain.hits_compared", 2000)
+	r.Require("objects.scene.rays_hitting_a_part", 2000)
+	r.Require("objects.scene.casts_from_inside_bounds", 2000)
 	r.Finish()
 }
 
 func estimator(r *vlib.Run) {
-	r.Section("estimator", r.N(150, 12000), vlib.SectionOpts{Sequential: true}, func(c *vlib.Case) {
+	r.Section("estimator", r.N(400, 12000), vlib.SectionOpts{Sequential: true}, func(c *vlib.Case) {
 		rng := c.Rng
 		// a one-pixel-wide image has no defined projection (centre and half-width coincide), so sizes start at 2
 		w, h := 2+rng.Intn(24), 2+rng.Intn(18)
